@@ -20,6 +20,7 @@ import unified_planning as up
 import unified_planning.engines as engines
 from unified_planning.engines.mixins.compiler import CompilationKind, CompilerMixin
 from unified_planning.engines.results import CompilerResult
+from unified_planning.engines.compilers.utils import rewritten_problem_kind
 from unified_planning.environment import Environment
 from unified_planning.exceptions import UPUsageError, UPValueError
 from unified_planning.model import (
@@ -163,7 +164,7 @@ class DurativeActionToProcesses(engines.engine.Engine, CompilerMixin):
     def resulting_problem_kind(
         problem_kind: ProblemKind, compilation_kind: Optional[CompilationKind] = None
     ) -> ProblemKind:
-        new_kind = problem_kind.clone()
+        new_kind = rewritten_problem_kind(problem_kind)
         new_kind.unset_time("INTERMEDIATE_CONDITIONS_AND_EFFECTS")
         if new_kind.has_duration_inequalities():
             new_kind.unset_time("DURATION_INEQUALITIES")
@@ -174,8 +175,23 @@ class DurativeActionToProcesses(engines.engine.Engine, CompilerMixin):
         new_kind.unset_expression_duration("REAL_TYPE_DURATIONS")
         new_kind.set_time("PROCESSES")
         new_kind.set_time("EVENTS")
+        # the clocks are real fluents increased by processes, reset by the start actions and compared with the
+        # durations (negated for the deadlines); the counter of the running actions is a natural number
         new_kind.set_fluents_type("INT_FLUENTS")
         new_kind.set_fluents_type("REAL_FLUENTS")
+        new_kind.set_numbers("BOUNDED_TYPES")
+        new_kind.set_effects_kind("INCREASE_CONTINUOUS_EFFECTS")
+        new_kind.set_effects_kind("INCREASE_EFFECTS")
+        new_kind.set_effects_kind("DECREASE_EFFECTS")
+        new_kind.set_effects_kind("FLUENTS_IN_NUMERIC_ASSIGNMENTS")
+        new_kind.set_conditions_kind("EQUALITIES")
+        new_kind.set_conditions_kind("NEGATIVE_CONDITIONS")
+        new_kind.set_conditions_kind("DISJUNCTIVE_CONDITIONS")
+        new_kind.set_problem_type("SIMPLE_NUMERIC_PLANNING")
+        new_kind.set_problem_type("GENERAL_NUMERIC_PLANNING")
+        # the actions that end an action of variable duration have the integer cost 0
+        if new_kind.has_actions_cost():
+            new_kind.set_actions_cost_kind("INT_NUMBERS_IN_ACTIONS_COST")
         return new_kind
 
     def _compile(
